@@ -53,7 +53,9 @@ func newExporter(tree *ImmutableTree) (*Exporter, error) {
 		cancel: cancel,
 	}
 
+	verifYield("export:before-pin")
 	tree.ndb.incrVersionReaders(tree.version)
+	verifYield("export:pinned")
 	go exporter.export(ctx)
 
 	return exporter, nil
